@@ -8,6 +8,7 @@ CLAIMED = {
  "C05": ("DESIGN.md §5 C05", "jp.Expr.Get vs a reference selector over concrete data shapes with symbolic indexes, slice bounds, keys and filter constants, every fragment kind in every position"),
  "C06": ("DESIGN.md §5 C06", "no-panic assertions on every path of the parser harnesses (panics are explicit fault branches of the executor)"),
  "C11": ("DESIGN.md §5 C11", "Has, First, FirstFound, Locate, Walk, GetNodes, FirstNode and Get on gen data against Get, same symbolic path space as C05"),
+ "C12": ("DESIGN.md §5 C12", "operator x left kind x right kind matrix with symbolic operand values against the property's typed comparison semantics; totality; ==/!= complement; multi-valued operands; Script.Match vs filter"),
  "C13": ("DESIGN.md §5 C13", "Set/Del/Remove/Modify and their *One forms vs reference mutations at the locations the reference selector picks (whole-tree equality = frame condition), symbolic indexes/bounds/keys"),
  "C09": ("DESIGN.md §5 C09", "reported Line/Column vs the reference's first-offending-byte position on every rejecting path"),
 }
